@@ -7,10 +7,11 @@ benign : apply each /verif/benign/*.diff (property-preserving edits: renamed loc
 seeded : apply each /verif/seeded/<ID>-m*/patch.diff, run the check of its property, print the verdict
          (expected: exit 1; exit 2 = undecided; exit 0 = missed).
 Evidence files are restored afterwards (they must describe the unchanged tree)."""
-import glob, json, os, shutil, subprocess, sys, tomllib
+import fnmatch, glob, json, os, shutil, subprocess, sys, tomllib
 
 V = os.path.dirname(os.path.dirname(os.path.abspath(__file__)))
 REPO = '/repo'
+ONLY = os.environ.get('SELFTEST_ONLY', '*')   # fnmatch pattern on the patch name (e.g. 'C07-m*', 'b1*')
 
 
 def sh(cmd, **kw):
@@ -49,6 +50,8 @@ def main(args):
     try:
         if mode in ('benign', 'all'):
             for d in sorted(glob.glob(os.path.join(V, 'benign', '*.diff'))):
+                if not fnmatch.fnmatch(os.path.basename(d), ONLY):
+                    continue
                 files = [l[6:].strip() for l in open(d) if l.startswith('+++ b/')]
                 if sh('git -C /repo apply ' + d).returncode != 0:
                     print('BENIGN %s: patch does not apply (stale)' % os.path.basename(d))
@@ -68,6 +71,8 @@ def main(args):
             for d in sorted(glob.glob(os.path.join(V, 'seeded', '*', 'patch.diff'))):
                 name = os.path.basename(os.path.dirname(d))
                 pid = name.split('-')[0]
+                if not fnmatch.fnmatch(name, ONLY):
+                    continue
                 if sh('git -C /repo apply ' + d).returncode != 0:
                     print('SEEDED %s: patch does not apply (stale)' % name)
                     continue
